@@ -64,6 +64,10 @@ def base_lib(language, r):
         {"decl": "void qfun3(int *v +intent(out))"},
         {"decl": "bool qfun4(bool b)"},
     ]
+    # structs: the Python emitter may add constructor nodes for them (PY_struct_arg: class)
+    decls.append({"decl": "struct Qpt { int x; double y; };", "options": {"PY_struct_arg": r.choice(["class", "list", "class"])}})
+    decls.append({"decl": "struct Qsz { int w; int h; };"})
+    decls.append({"decl": "int qsfun(Qpt *p +intent(in), Qsz s)"})
     if language != "c":
         decls.append({"decl": "void qfun5(const std::string & s)"})
         decls.append({"decl": "class Qcls", "declarations": [
@@ -259,8 +263,9 @@ def run(ctx):
             ndecl = len(dd0["declarations"])
             ovsets = []
             if lname == "cxx":
-                ovsets.append([((8,), {"wrap_c": False, "wrap_fortran": False})])          # first qover: scripting only
-                ovsets.append([((9,), {"wrap_c": False, "wrap_fortran": False}), ((0,), {"wrap_python": False})])
+                iov = [k for k, d0 in enumerate(lib.decls) if d0["decl"].startswith("void qover")]
+                ovsets.append([((iov[0],), {"wrap_c": False, "wrap_fortran": False})])          # first qover: scripting only
+                ovsets.append([((iov[1],), {"wrap_c": False, "wrap_fortran": False}), ((0,), {"wrap_python": False})])
             for _ in range(3 if thorough else 1):
                 ovs = []
                 for k in r.sample(range(ndecl), min(ndecl, r.randrange(1, 4))):
@@ -292,8 +297,11 @@ def run(ctx):
                 targets = [((0,), "qfun0"), ((1,), "qfun1"), ((2,), "qfun2")]
                 tn = [0]
                 if lname == "cxx":
-                    targets.append(((6, 2), "qmeth0"))
-                    targets.append(((7, 1, 0, 0), "qfun7"))      # three namespaces deep
+                    top = [d0["decl"] for d0 in lib.decls]
+                    icls = [k for k, t in enumerate(top) if t.startswith("class Qcls")][0]
+                    ins = [k for k, t in enumerate(top) if t.startswith("namespace qns")][0]
+                    targets.append(((icls, 2), "qmeth0"))
+                    targets.append(((ins, 1, 0, 0), "qfun7"))      # three namespaces deep
                 optn = {"c": "wrap_c", "fortran": "wrap_fortran", "python": "wrap_python", "lua": "wrap_lua"}
                 for path, fname in targets if thorough else (targets[:2] + targets[-1:]):
                     for kind in KINDS:
